@@ -14,6 +14,7 @@ ID = "C02"
 LEVEL = "exploration"
 ENV = {"x64": True, "devices": 1}
 BUDGET = {"quick": 130, "thorough": 2700}
+TRACE_CASES = True      # expensive cases: record the case in flight so a hang can be named
 RULE = (
     "Hypothesis-built option records over graft type (7), beta1, beta2 (incl. 1), "
     "nesterov, moving-average momentum, weight decay x decoupling, lr "
